@@ -350,12 +350,99 @@ LsInst(m, n, v) ==
 LsCases == {[m |-> s[1], n |-> s[2], v |-> v] : s \in Shapes2, v \in {0, 1}}
 
 (****************************************************************************)
+(* Tridiagonal systems.                                                     *)
+(*  "pt": symmetric positive definite A = L*D*L^T, L unit lower bidiagonal  *)
+(*   (integers l_i in -2..2), D = diag(2^k): a_i = D_i + l_{i-1}^2 D_{i-1}, *)
+(*   e_i = l_i D_i.  Dpttrf must return (D, l); variant 1 plants one        *)
+(*   D_k = -2 (not positive definite: ok = false).  B = A*X0.               *)
+(*  "gt": general A = S*(L*U), L unit lower bidiagonal (l_i in {0,+-1/2}),  *)
+(*   U upper bidiagonal (u_i = +-2^k, k in 1..3, c_i in -3..3), S a         *)
+(*   diagonal of powers of two.  With S = I (variant 0) partial pivoting    *)
+(*   never interchanges; in variant 1 (n <= 12 only) S grows by a factor 4  *)
+(*   at formula-chosen rows, which forces interchanges there while all      *)
+(*   multipliers stay dyadic.  A is non-singular (u_i # 0), so X0 is the    *)
+(*   unique solution of A*X = B := A*X0.  Values times den = 2.             *)
+(****************************************************************************)
+TdInst(n, v) ==
+  LET R == Nrhs
+      X == Mat(n, R, LAMBDA i, j : (H(i, j, 71) % 9) - 4)
+      \* ---- pt
+      kb == IF v = 1 THEN H(n, v, 72) % n ELSE -1
+      D == Fn([i \in 0 .. n - 1 |-> IF i = kb THEN -2 ELSE Pow2(H(i, n, 73) % 3)])
+      l == Fn([i \in 0 .. n - 2 |-> (H(i, n, 74) % 5) - 2])
+      pa == Fn([i \in 0 .. n - 1 |-> D[i] + (IF i > 0 THEN l[i - 1] * l[i - 1] * D[i - 1] ELSE 0)])
+      pe == Fn([i \in 0 .. n - 2 |-> l[i] * D[i]])
+      PB == Mat(n, R, LAMBDA i, j : pa[i] * X[i][j] + (IF i > 0 THEN pe[i - 1] * X[i - 1][j] ELSE 0)
+                                     + (IF i < n - 1 THEN pe[i] * X[i + 1][j] ELSE 0))
+      \* ---- gt (times 2)
+      u == Fn([i \in 0 .. n - 1 |-> Sign(i, n, 75) * Pow2(1 + (H(i, n, 76) % 3))])
+      ln == Fn([i \in 0 .. n - 2 |-> (H(i, n, 77) % 3) - 1])       \* l_i = ln_i / 2
+      cc == Fn([i \in 0 .. n - 2 |-> (H(i, n, 78) % 7) - 3])
+      RECURSIVE sAt(_)
+      sAt(i) == IF i = 0 THEN 0 ELSE sAt(i - 1) + (IF v = 1 /\ n <= 12 /\ H(i, n, 79) % 2 = 0 THEN 2 ELSE 0)
+      sc == Fn([i \in 0 .. n - 1 |-> Pow2(sAt(i))])
+      gdl == Fn([i \in 0 .. n - 2 |-> sc[i + 1] * ln[i] * u[i]])                           \* 2 * dl'_i
+      gd == Fn([i \in 0 .. n - 1 |-> sc[i] * (2 * u[i] + (IF i > 0 THEN ln[i - 1] * cc[i - 1] ELSE 0))])
+      gdu == Fn([i \in 0 .. n - 2 |-> sc[i] * 2 * cc[i]])
+      GB == Mat(n, R, LAMBDA i, j : gd[i] * X[i][j] + (IF i > 0 THEN gdl[i - 1] * X[i - 1][j] ELSE 0)
+                                     + (IF i < n - 1 THEN gdu[i] * X[i + 1][j] ELSE 0))
+      npiv == Cardinality({i \in 0 .. n - 2 : Abs(gdl[i]) > Abs(sc[i] * 2 * u[i])})
+  IN [fam |-> "td", m |-> n, n |-> n, v |-> v, den |-> 2, ok |-> (v = 0), kbad |-> kb, R |-> R,
+      X |-> MatSeq(X, n, R),
+      pd |-> VecSeq(pa, n), pe |-> VecSeq(pe, n - 1), D |-> VecSeq(D, n), l |-> VecSeq(l, n - 1), PB |-> MatSeq(PB, n, R),
+      gdl |-> VecSeq(gdl, n - 1), gd |-> VecSeq(gd, n), gdu |-> VecSeq(gdu, n - 1), GB |-> MatSeq(GB, n, R),
+      npiv |-> npiv,
+      tol |-> 100 * Max(n, 1) * (1 + NormMax(X, n, R)) * 2]
+
+TdCases == {[n |-> n, v |-> v] : n \in (0 .. Small + 4) \cup {b % 1000 : b \in Big}, v \in {0, 1}}
+
+(****************************************************************************)
+(* Auxiliary integer operators: row interchanges (Dlaswp), column / row     *)
+(* permutations (Dlapmt / Dlapmr) and the max / one / infinity norms of     *)
+(* general, symmetric and trapezoidal matrices (Dlange, Dlansy, Dlantr).    *)
+(****************************************************************************)
+RECURSIVE SwapRows(_, _, _, _, _)
+SwapRows(X, ipiv, k, last, step) ==
+  IF (step = 1 /\ k > last) \/ (step = -1 /\ k < last) THEN X
+  ELSE SwapRows(SwapF(X, k, ipiv[k]), ipiv, k + step, last, step)
+
+AuxInst(m, n, v) ==
+  LET A == Mat(m, n, LAMBDA i, j : (H(i, j, 81 + v) % 19) - 9)
+      k1 == IF m = 0 THEN 0 ELSE H(m, n, 82 + v) % m
+      k2 == IF m = 0 THEN -1 ELSE k1 + (H(n, m, 83) % (m - k1))
+      ipiv == Fn([k \in 0 .. k2 |-> IF k < k1 THEN 0 ELSE H(k, m + v, 84) % m])
+      kc == Pos(Fn([t \in 0 .. n - 1 |-> t + (H(t, n + v, 85) % (n - t))]), n, n)
+      kr == Pos(Fn([t \in 0 .. m - 1 |-> t + (H(t, m + v, 86) % (m - t))]), m, m)
+      kcinv == InvPerm(kc, n)
+      krinv == InvPerm(kr, m)
+      mn == Min(m, n)
+      \* symmetric matrix defined by the upper triangle of the leading mn x mn block
+      S == Mat(mn, mn, LAMBDA i, j : IF i <= j THEN A[i][j] ELSE A[j][i])
+      \* trapezoids: up = 1 upper (j >= i), up = 0 lower (j <= i); unit: diagonal counts as 1
+      Tr(up, unit) == Mat(m, n, LAMBDA i, j : IF i = j THEN (IF unit = 1 THEN 1 ELSE A[i][j])
+                                            ELSE IF (up = 1 /\ j > i) \/ (up = 0 /\ j < i) THEN A[i][j] ELSE 0)
+      N3(X, r, cN) == <<NormMax(X, r, cN), Norm1(X, r, cN), NormInf(X, r, cN)>>
+  IN [fam |-> "aux", m |-> m, n |-> n, v |-> v, den |-> 1, A |-> MatSeq(A, m, n),
+      k1 |-> k1, k2 |-> k2, ipiv |-> VecSeq(ipiv, k2 + 1),
+      swF |-> MatSeq(SwapRows(A, ipiv, k1, k2, 1), m, n), swB |-> MatSeq(SwapRows(A, ipiv, k2, k1, -1), m, n),
+      kc |-> VecSeq(kc, n), kr |-> VecSeq(kr, m),
+      pcF |-> MatSeq(Mat(m, n, LAMBDA i, j : A[i][kc[j]]), m, n), pcB |-> MatSeq(Mat(m, n, LAMBDA i, j : A[i][kcinv[j]]), m, n),
+      prF |-> MatSeq(Mat(m, n, LAMBDA i, j : A[kr[i]][j]), m, n), prB |-> MatSeq(Mat(m, n, LAMBDA i, j : A[krinv[i]][j]), m, n),
+      nge |-> N3(A, m, n), nsy |-> N3(S, mn, mn),
+      ntr |-> <<N3(Tr(1, 0), m, n), N3(Tr(1, 1), m, n), N3(Tr(0, 0), m, n), N3(Tr(0, 1), m, n)>>,
+      tol |-> 0]
+
+AuxCases == {[m |-> s[1], n |-> s[2], v |-> v] : s \in Shapes2, v \in {0, 1}}
+
+(****************************************************************************)
 Cases == CASE Fam = "lu" -> {x \in LuCases : LuValid(x)}
            [] Fam = "chol" -> {x \in ChCases : ChValid(x)}
            [] Fam = "qr" -> QrCases
            [] Fam = "qp3" -> {z \in Qp3Cases : z.v <= z.n}
            [] Fam = "tri" -> {z \in TriCases : z.v # 2 \/ z.n >= 1}
            [] Fam = "ls" -> {z \in LsCases : z.m >= z.n /\ (z.v = 0 \/ z.n >= 1)}
+           [] Fam = "td" -> {z \in TdCases : z.n >= 1 \/ z.v = 0}
+           [] Fam = "aux" -> AuxCases
            [] Fam = "larft" -> {x \in LarftCases : x.n <= x.m}
 
 Inst(x) == CASE Fam = "lu" -> LuInst(x.m, x.n, x.v)
@@ -364,6 +451,8 @@ Inst(x) == CASE Fam = "lu" -> LuInst(x.m, x.n, x.v)
              [] Fam = "qp3" -> Qp3Inst(x.m, x.n, x.v)
              [] Fam = "tri" -> TriInst(x.n, x.v, x.n <= DeepMax)
              [] Fam = "ls" -> LsInst(x.m, x.n, x.v)
+             [] Fam = "td" -> TdInst(x.n, x.v)
+             [] Fam = "aux" -> AuxInst(x.m, x.n, x.v)
              [] Fam = "larft" -> LarftInst(x.m, x.n, x.v)
 
 Init == cs \in Cases
